@@ -615,6 +615,12 @@ func (x *Executor) applyContract(fr *Frame, st *State, reach string, con *Contra
 			if ty, ok := st.fresh[t]; ok {
 				saved[t] = ty
 				delete(st.fresh, t)
+				// the callee may write this caller-allocated object: a direct write of its components
+				for _, loc := range x.compsOfObject(t, ty) {
+					for _, w := range x.wstack {
+						w.direct[loc.comp] = true
+					}
+				}
 			}
 		}
 		x.havocAll(st)
